@@ -300,18 +300,24 @@ def mean (ts : List (Option Frac)) : Frac :=
 /-- `round(n/d)` to the nearest integer, ties up -/
 def roundHalfUp (n d : Nat) : Nat := (2 * n + d) / (2 * d)
 
-/-- the exact score of a MacroVector with the given per-EQ severity distances, in tenths, as a fraction:
-    `value − mean`. (The mean never exceeds the value: `mean_le_value` in `Spec/V4Lemmas.lean`.) -/
-def exactOf (mv : MV) (d1 d2 d36 d4 d5 : Nat) : Frac :=
+/-- the mean of (available distance × proportion) over the EQs that have a next lower MacroVector, in tenths -/
+def meanOf (mv : MV) (d1 d2 d36 d4 d5 : Nat) : Frac :=
   match mv with
   | (q1, q2, q3, q4, q5, q6) =>
     let value := (lookup mv).getD 0
-    let m := mean [ term value (lower1 mv) d1 (depth1P1 q1),
-                    term value (lower2 mv) d2 (depth2P1 q2),
-                    term value (lower36 mv) d36 (depth36P1 q3 q6),
-                    term value (lower4 mv) d4 (depth4P1 q4),
-                    term value (lower5 mv) d5 (depth5P1 q5) ]
-    ⟨value * m.den - m.num, m.den⟩
+    mean [ term value (lower1 mv) d1 (depth1P1 q1),
+           term value (lower2 mv) d2 (depth2P1 q2),
+           term value (lower36 mv) d36 (depth36P1 q3 q6),
+           term value (lower4 mv) d4 (depth4P1 q4),
+           term value (lower5 mv) d5 (depth5P1 q5) ]
+
+/-- the exact score of a MacroVector with the given per-EQ severity distances, in tenths, as a fraction:
+    `value − mean`. (The mean never exceeds the value — `mean_le_value` in `Spec/V4Lemmas.lean` — so the
+    natural-number subtraction is exact.) -/
+def exactOf (mv : MV) (d1 d2 d36 d4 d5 : Nat) : Frac :=
+  let value := (lookup mv).getD 0
+  let m := meanOf mv d1 d2 d36 d4 d5
+  ⟨value * m.den - m.num, m.den⟩
 
 /-- the score in tenths, rounded half-up -/
 def scoreOf (mv : MV) (d1 d2 d36 d4 d5 : Nat) : Nat :=
